@@ -143,6 +143,9 @@ func (ds *Storage) fetch(ctx context.Context, br blob.Ref, offset, length int64)
 	if os.IsNotExist(err) {
 		return nil, 0, os.ErrNotExist
 	}
+	if err != nil {
+		return nil, 0, err
+	}
 	size = u32(stat.Size())
 	file, err := ds.fs.Open(fileName)
 	if err != nil {
